@@ -645,7 +645,12 @@ impl Element {
                         match slot_kind {
                             SlotKind::None => write!(w, "undefined")?,
                             SlotKind::Static(s) => write!(w, "{}", gen_lit_str(s))?,
-                            SlotKind::Dynamic(p) => p.value_expr(w)?,
+                            SlotKind::Dynamic(p) => {
+                                // (as a string: `undefined` would mean "leave the slot unchanged")
+                                write!(w, "Y(")?;
+                                p.value_expr(w)?;
+                                write!(w, ")")?;
+                            }
                         }
                         if let Some(var_slot_map) = var_slot_names {
                             if var_slot_map.len() > 0 {
